@@ -103,6 +103,30 @@ func schedMachines() []schedMachine {
 			}
 			return bm, nil
 		}},
+		// a consumer that reads three inputs back to back: several deferred actions (the recv drops) are
+		// pending on one processor at the same time and become ready in different ticks
+		{"gather3", func() (*bondmachine.Bondmachine, error) {
+			bm := newBM(8)
+			ops := []string{"inc", "r2owa", "i2rw", "j", "add", "nop"}
+			for i, prog := range []string{"inc r0\nr2owa r0 o0\nj 0\n", "inc r0\ninc r0\nnop\nr2owa r0 o0\nj 0\n", "inc r0\nnop\nnop\nnop\nnop\nr2owa r0 o0\nj 0\n"} {
+				p, err := mkMachine(8, 2, 0, 1, 0, ops, prog)
+				if err != nil {
+					return nil, fmt.Errorf("producer %d: %v", i, err)
+				}
+				addProc(bm, p)
+			}
+			c, err := mkMachine(8, 2, 3, 1, 0, ops, "i2rw r0 i0\ni2rw r1 i1\ni2rw r2 i2\nadd r0 r1\nadd r0 r2\nr2owa r0 o0\nj 0\n")
+			if err != nil {
+				return nil, err
+			}
+			addProc(bm, c)
+			bm.Add_output()
+			for i := 0; i < 3; i++ {
+				bm.Add_bond([]string{"p3i" + strconv.Itoa(i), "p" + strconv.Itoa(i) + "o0"})
+			}
+			bm.Add_bond([]string{"o0", "p3o0"})
+			return bm, nil
+		}},
 		{"addp1", func() (*bondmachine.Bondmachine, error) {
 			bm := newBM(8)
 			p, err := mkMachine(8, 2, 0, 0, 0, []string{"rset", "addp", "divp", "j"}, "rset r1 3\nrset r2 200\naddp r0 r1\ndivp r2 r1\nj 2\n")
@@ -426,6 +450,43 @@ func runCalls(mu *sync.Mutex, emit func(schedEvent)) bool {
 	wg.Wait()
 	if !ok {
 		return false
+	}
+	// the same call repeated, with its stimuli written in every spelling of a 32-bit float: every
+	// repetition gives the report of the first one (no concurrency involved: what may differ from run to
+	// run is the order in which a map is walked)
+	mkIn := func() *bondmachine.Bondmachine {
+		bm := newBM(32)
+		p, err := mkMachine(32, 1, 1, 1, 0, []string{"i2rw", "r2owa", "j"}, "i2rw r0 i0\nr2owa r0 o0\nj 0\n")
+		if err != nil {
+			return nil
+		}
+		addProc(bm, p)
+		bm.Add_input()
+		bm.Add_output()
+		bm.Add_bond([]string{"i0", "p0i0"})
+		bm.Add_bond([]string{"o0", "p0o0"})
+		return bm
+	}
+	for _, lit := range []string{"0f<32>1.5", "0f1.5", "0x3fc00000", "0f<32>-0.25"} {
+		ref := ""
+		for k := 0; k < 40; k++ {
+			bm := mkIn()
+			if bm == nil {
+				return false
+			}
+			res, err := bm.SinglePipelineSimulate("float32", []string{lit}, nil)
+			d := strings.Join(res, ",")
+			if err != nil {
+				d = "error: " + err.Error()
+			}
+			if k == 0 {
+				ref = d
+				continue
+			}
+			mu.Lock()
+			emit(schedEvent{Ev: "call", D: d, Ref: ref, Note: "SinglePipelineSimulate:repeated:stimulus-" + lit})
+			mu.Unlock()
+		}
 	}
 	// concurrent calls that share one delay table (as the fine tuner's workers do): the table is an
 	// argument, a simulation may read it but not change it, and the draws of concurrent simulations
